@@ -442,10 +442,16 @@ SITES = [
     Site("sindex_buf", "src/interpret.c", "push_indexed_lvalue", ["T_BUFFER"], "*Buffer index out of bounds.", occ=1),
     Site("sindex_arr", "src/interpret.c", "push_indexed_lvalue", ["T_ARRAY"], "*Array index out of bounds.", occ=1),
     # push_lvalue_range
+    # push_lvalue_range: the 64-bit pre-check of each operand (occurrence 0) and the exact test after the narrowing
+    # to int (occurrence 1) carry the same message
+    Site("lrange_ind2_pre", "src/interpret.c", "push_lvalue_range", [],
+         "*The 2nd index to range lvalue must be >= -1 and < sizeof(indexed value)", occ=0),
     Site("lrange_ind2", "src/interpret.c", "push_lvalue_range", [],
-         "*The 2nd index to range lvalue must be >= -1 and < sizeof(indexed value)"),
+         "*The 2nd index to range lvalue must be >= -1 and < sizeof(indexed value)", occ=1),
+    Site("lrange_ind1_pre", "src/interpret.c", "push_lvalue_range", [],
+         "*The 1st index to range lvalue must be >= 0 and <= sizeof(indexed value)", occ=0),
     Site("lrange_ind1", "src/interpret.c", "push_lvalue_range", [],
-         "*The 1st index to range lvalue must be >= 0 and <= sizeof(indexed value)"),
+         "*The 1st index to range lvalue must be >= 0 and <= sizeof(indexed value)", occ=1),
     # f_range / f_extract_range clamps (no error: positional)
     # f_range / f_extract_range clamps (no error(): positional among the ifs under the case label, pre-order;
     # the positions are those of the build configuration in use - OLD_RANGE_BEHAVIOR defined)
@@ -465,6 +471,13 @@ SITES = [
     Site("erange_buf_from_neg", "lib/lpc/operator.c", "f_extract_range", ["T_BUFFER"], if_ord=1),
     Site("erange_buf_from_neg2", "lib/lpc/operator.c", "f_extract_range", ["T_BUFFER"], if_ord=2),
     Site("erange_buf_from_hi", "lib/lpc/operator.c", "f_extract_range", ["T_BUFFER"], if_ord=3),
+    # 64-bit clamps in front of slice_array (which takes ints)
+    Site("range_arr_from_neg", "lib/lpc/operator.c", "f_range", ["T_ARRAY"], if_ord=2),
+    Site("range_arr_to_hi", "lib/lpc/operator.c", "f_range", ["T_ARRAY"], if_ord=3),
+    Site("range_arr_to_lo", "lib/lpc/operator.c", "f_range", ["T_ARRAY"], if_ord=4),
+    Site("range_arr_from_hi", "lib/lpc/operator.c", "f_range", ["T_ARRAY"], if_ord=5),
+    Site("erange_arr_from_neg", "lib/lpc/operator.c", "f_extract_range", ["T_ARRAY"], if_ord=1),
+    Site("erange_arr_from_hi", "lib/lpc/operator.c", "f_extract_range", ["T_ARRAY"], if_ord=2),
     Site("slice_from_neg", "lib/lpc/array.c", "slice_array", [], if_ord=0),
     Site("slice_to_hi", "lib/lpc/array.c", "slice_array", [], if_ord=1),
     Site("slice_empty", "lib/lpc/array.c", "slice_array", [], if_ord=2),
